@@ -49,11 +49,21 @@ impl ListDefinition {
     }
 
     pub fn get_item_with_value(&self, val: i32) -> Option<InkListItem> {
+        // Several items may share a value: pick the one with the smallest name,
+        // so that the result does not depend on the map's iteration order.
+        let mut found: Option<&String> = None;
         for (item_name, value) in &self.item_name_to_values {
             if *value == val {
-                return Some(InkListItem::new(Some(self.name.clone()), item_name.clone()));
+                match found {
+                    Some(f) if f <= item_name => {}
+                    _ => found = Some(item_name),
+                }
             }
         }
-        None
+
+        match found {
+            Some(item_name) => Some(InkListItem::new(Some(self.name.clone()), item_name.clone())),
+            None => None,
+        }
     }
 }
